@@ -65,7 +65,7 @@ fn gen_offset(size: usize) -> u64 {
         2 => 4096,
         3 => 8192,
         4 => 100,
-        5 => u64::MAX,
+        5 => [u64::MAX, 1 << 63, (1 << 63) - 4096, i64::MAX as u64][c.a(4) as usize],
         6 => (u64::MAX - size as u64).wrapping_add(1),
         7 => u64::MAX - size as u64,
         _ => 4096 * c.a(4) as u64,
@@ -241,12 +241,47 @@ fn one_request(step: usize) -> (String, bool) {
             let via_builder = cx().a(2) == 0;
             let desc = if via_builder { format!("MmapRegionBuilder.with_raw_mmap_pointer: {}", desc) } else { desc };
             // SAFETY: the mapping exists for the duration of the request.
-            let r = if via_builder { catch(|| unsafe { vm_memory::mmap::MmapRegionBuilder::<()>::new(size).with_mmap_prot(prot).with_mmap_flags(flags).with_raw_mmap_pointer(ptr).build() }) } else { catch(|| unsafe { MmapRegion::<()>::build_raw(ptr, size, prot, flags) }) };
+            // the builder may also be told which file the external mapping belongs to, in either order
+            let ext_file = if via_builder && cx().a(2) == 0 { Some((crate::gmworld::memfd(size as u64 + 4096), 4096 * cx().a(2) as u64, cx().a(2) == 0)) } else { None };
+            let desc = match &ext_file {
+                Some((_, off, first)) => format!("{} with_file_offset(offset {:#x}, {} the pointer)", desc, off, if *first { "before" } else { "after" }),
+                None => desc,
+            };
+            let r = if via_builder {
+                catch(|| {
+                    let mut b = vm_memory::mmap::MmapRegionBuilder::<()>::new(size).with_mmap_prot(prot).with_mmap_flags(flags);
+                    match &ext_file {
+                        Some((f, off, true)) => {
+                            b = b.with_file_offset(FileOffset::new(f.try_clone().expect("dup"), *off));
+                            // SAFETY: the mapping exists for the duration of the request.
+                            b = unsafe { b.with_raw_mmap_pointer(ptr) };
+                        }
+                        Some((f, off, false)) => {
+                            // SAFETY: as above.
+                            b = unsafe { b.with_raw_mmap_pointer(ptr) };
+                            b = b.with_file_offset(FileOffset::new(f.try_clone().expect("dup"), *off));
+                        }
+                        None => {
+                            // SAFETY: as above.
+                            b = unsafe { b.with_raw_mmap_pointer(ptr) };
+                        }
+                    }
+                    b.build()
+                })
+            } else {
+                // SAFETY: the mapping exists for the duration of the request.
+                catch(|| unsafe { MmapRegion::<()>::build_raw(ptr, size, prot, flags) })
+            };
             let accepted = match r {
                 OpOutcome::Ok(Ok(reg)) => {
                     verdict("build_raw", "a region", if mis == 0 { "a region" } else { "InvalidPointer" }, &desc);
-                    if reg.size() != size || reg.prot() != prot || reg.flags() != flags || reg.owned() || reg.file_offset().is_some() || reg.as_ptr() != ptr {
-                        cx().violate("C15", "C15/attributes", "build_raw attributes".into(), format!("{}: region reports size {} prot {:#x} flags {:#x} owned {}", desc, reg.size(), reg.prot(), reg.flags(), reg.owned()));
+                    let foff_ok = match (&ext_file, reg.file_offset()) {
+                        (None, None) => true,
+                        (Some((_, off, _)), Some(fo)) => fo.start() == *off,
+                        _ => false,
+                    };
+                    if reg.size() != size || reg.prot() != prot || reg.flags() != flags || reg.owned() || !foff_ok || reg.as_ptr() != ptr {
+                        cx().violate("C15", "C15/attributes", "build_raw attributes".into(), format!("{}: region reports size {} prot {:#x} flags {:#x} owned {} file offset {:?}", desc, reg.size(), reg.prot(), reg.flags(), reg.owned(), reg.file_offset().map(|f| f.start())));
                     }
                     let gr = catch(|| GuestRegionMmap::new(reg, GuestAddress(base)));
                     guest_region_verdict(gr, base, size, &desc);
@@ -454,7 +489,7 @@ fn one_request(_step: usize) -> (String, bool) {
     // every value of the low five Xen flag bits, random high bits now and then
     let xflags = c.a(32) | if c.a(8) == 0 { 1 << (5 + c.a(27)) } else { 0 };
     let with_file = c.a(4) != 0;
-    let offset = if c.a(4) == 0 { [4096u64, 1, u64::MAX][c.a(3) as usize] } else { 0 };
+    let offset = if c.a(4) == 0 { [4096u64, 1, u64::MAX, 1 << 63, (1 << 63) + 4096, (1 << 63) - 4096, 1 << 32][c.a(7) as usize] } else { 0 };
     let mmflags: Option<i32> = match c.a(5) {
         0 => None,
         1 => Some(libc::MAP_SHARED | if c.a(2) == 0 { libc::MAP_FIXED } else { libc::MAP_FIXED_NOREPLACE }),
